@@ -113,8 +113,10 @@ def maybe_short(draw, shape, mins, lo=1, one_in=6):
 # ----------------------------------------------------------------------------------------
 import math  # noqa: E402
 
-ORIGINS = [0.0, -1.0, 0.1, -3.75, 2.0, 100.0, -7.32]
-LENGTHS = [1.0, 2 * math.pi, 0.01, 14.4, 1000.0, 1.0 / 3.0, 14.64, 1506.759067]
+# the last entries are "non-round" on purpose: BSplines.greville rounds the interpolation points to 15 decimals, which moves
+# the end nodes of such domains by an ulp relative to the knots (round numbers never show that)
+ORIGINS = [0.0, -1.0, 0.1, -3.75, 2.0, 100.0, -7.32, -5 * math.sqrt(2), math.e / 10]
+LENGTHS = [1.0, 2 * math.pi, 0.01, 14.4, 1000.0, 1.0 / 3.0, 14.64, 1506.759067, 10 * math.sqrt(2), math.pi / 3]
 
 
 @st.composite
